@@ -26,8 +26,8 @@ Decided:
          element of the returned comprehension, possibly through locals and the helper's return value).  Parameter
          defaults of endpoints are consulted by name only.  No peripheral context stores an Application / route /
          middleware / request object itself (conventional names, aliases, loop variables over .routes /
-         .middlewares / .peripherals, parameters of helpers they are handed to), so the JSON encoder cannot reach a
-         value by traversal.  A sensitive mapping handed to the constructor of a class of the tree is followed through
+         .middlewares / .peripherals, parameters of helpers they are handed to) nor a list of them (``x.routes`` /
+         ``x.middlewares`` itself, a copy, a local that names one), so the JSON encoder cannot reach a value by traversal.  A sensitive mapping handed to the constructor of a class of the tree is followed through
          the field it is stored in (``self.f = m``): every method that may run on such an object is judged with the
          field tagged (membership / names only), the object itself must not escape, ``getattr(self, name)`` is
          followed when ``name`` runs over a constant table of method names.  Where the value is listed it is a text
@@ -51,7 +51,12 @@ Decided:
          total as far as the shape tells: it reads from the exception only what every exception has (guarded by
          hasattr / a nested try otherwise), and every name that only the success path of the try statement binds and
          that is read -- outside any protection -- on the way on from the handler is bound by the handler or earlier in
-         the same iteration (else: NameError for the first section, the previous section's data for the others);
+         the same iteration (else: NameError for the first section, the previous section's data for the others) -- the
+         handler itself reads no such name either and repeats no subscript lookup of the protected block.  Whether a
+         peripheral call is made depends on the peripheral at hand alone (its attributes, the outcome of its own calls,
+         configuration of the meta application): never on what other sections left in the shared context, on a flag or a
+         counter that earlier iterations set (the contexts of one group are merged: a section that can be computed is
+         computed, whatever happened to the others);
   R18.d  templates: every reference of the meta_*.html templates is escaped, except the allow-listed
          {content|s} of meta_base.html, whose value is an ashes render of a checked section template.
   R18.e  textual representations: the views print host objects they know nothing about (repr() of resource values,
@@ -3091,21 +3096,105 @@ def _success_only_reads(fi, h):
     return sorted(out, key=lambda t: (getattr(t[1], 'lineno', 0), getattr(t[1], 'col_offset', 0)))
 
 
-def _depends_on_peripheral_only(fi, e, pn, depth=0):
-    """The first local read by ``e`` that is neither (derived from) the peripheral at hand -- names in ``pn`` -- nor a field of the
-    meta application that this function never assigns (configuration); None when there is none."""
-    for x in ast.walk(e):
-        if not (isinstance(x, ast.Name) and isinstance(x.ctx, ast.Load)) or x.id not in _local_names(fi) or x.id in pn:
-            continue
-        par = fi.mod.parents.get(x)
+def _depends_on_peripheral_only(fi, e, pn, region=None, depth=0):
+    """The first local read by ``e`` that may carry something else than the peripheral at hand; None when there is none.
+    Harmless are: the peripheral itself (names in ``pn``) and the results of calls of its methods (its own outcome), fields
+    of the meta application this function never assigns (configuration), the exception a handler of this iteration holds,
+    and locals that name such things -- bound once anywhere, or only inside the current iteration (``region``: ids of the
+    nodes of the loop body; None: the whole function is one iteration), and never changed afterwards."""
+    mod = fi.mod
+
+    def peripheral_call(c):
+        if not isinstance(c, ast.Call):
+            return False
+        f = c.func
+        if isinstance(f, ast.Attribute) and isinstance(f.value, ast.Name) and f.value.id in pn:
+            return True
+        return _is_inject(fi, c) and bool(c.args) and isinstance(c.args[0], ast.Attribute) and isinstance(c.args[0].value, ast.Name) and c.args[0].value.id in pn
+
+    def check(x):
+        if x.id not in _local_names(fi) or x.id in pn:
+            return None
+        par = mod.parents.get(x)
         if x.id in ('self', 'cls') and x.id in fi.params()[:1] and isinstance(par, ast.Attribute) and par.value is x and not any(
                 isinstance(y, ast.Attribute) and y.attr == par.attr and isinstance(y.ctx, (ast.Store, ast.Del)) for y in ast.walk(fi.node)):
-            continue
-        v = _single_assignment(fi, x.id) if depth < 3 else None
-        if v is not None and not _maybe_mutated(fi, x.id) and _depends_on_peripheral_only(fi, v, pn, depth + 1) is None:
-            continue          # a name for something computed from the peripheral (and never changed afterwards)
+            return None
+        if any(isinstance(y, ast.ExceptHandler) and y.name == x.id and (region is None or id(y) in region) for y in ast.walk(fi.node)) and \
+                not any(isinstance(y, ast.Name) and y.id == x.id and isinstance(y.ctx, ast.Store) for y in ast.walk(fi.node)):
+            return None
+        stores = [y for y in ast.walk(fi.node) if isinstance(y, ast.Name) and y.id == x.id and isinstance(y.ctx, (ast.Store, ast.Del))]
+        if depth < 3 and stores and x.id not in fi.params() and not _maybe_mutated(fi, x.id) and \
+                (len(stores) == 1 or (region is not None and all(id(y) in region for y in stores))):
+            vals = []
+            for y in stores:
+                asg = mod.parents.get(y)
+                if isinstance(asg, ast.Assign) and len(asg.targets) == 1 and asg.targets[0] is y:
+                    vals.append(asg.value)
+                else:
+                    return x
+            if all(_depends_on_peripheral_only(fi, v, pn, region, depth + 1) is None for v in vals):
+                return None
         return x
-    return None
+
+    def first_bad(n):
+        if peripheral_call(n):
+            return None
+        if isinstance(n, ast.Name):
+            return check(n) if isinstance(n.ctx, ast.Load) else None
+        if isinstance(n, (ast.Lambda, ast.FunctionDef, ast.AsyncFunctionDef)):
+            return None
+        for ch in ast.iter_child_nodes(n):
+            r = first_bad(ch)
+            if r is not None:
+                return r
+        return None
+    return first_bad(e)
+
+
+def _section_conditions(links):
+    """[(condition, function, the local it reads)]: the conditions -- inside the loop over the peripherals, down to the
+    protected call -- under which the call is made and that read something else than the peripheral at hand (what an
+    earlier section left in the shared context, a flag, a counter).  ``links``: (function, node) from the view down to the
+    call, through the helpers that make it."""
+    out = []
+    pn, started = set(), False
+    for j, (lf, ln) in enumerate(links):
+        loops = [l for l in _loops_around(lf, ln) if _iter_mentions(lf, l.iter, 'peripherals')]
+        pn = _peripheral_elements(lf, pn)
+        base, region = set(), None
+        if loops and not started:
+            started = True
+            outer = loops[-1]
+            anchor_stmt = outer if isinstance(outer, ast.For) else stmt_of(lf.mod, outer)
+            holder = outer if isinstance(outer, ast.For) else lf.mod.parents.get(outer)
+            region = set(id(x) for x in ast.walk(holder)) - (set(id(x) for x in ast.walk(outer.iter)) if isinstance(outer, ast.For) else set())
+            try:
+                base = set((norm(t), p) for t, p in conds(lf, anchor_stmt))
+            except AnalysisError:
+                base = set()
+        if started:
+            for t, p in expr_conds(lf, ln):
+                if (norm(t), p) in base or isinstance(t, ast.BoolOp):
+                    continue
+                x = _depends_on_peripheral_only(lf, t, pn, region)
+                if x is not None:
+                    out.append((t, lf, x))
+        # the peripheral handed on to the helper of the next link
+        if j + 1 < len(links) and isinstance(ln, ast.Call):
+            nxt = links[j + 1][0]
+            passed = set()
+            for skip in (1, 0):
+                b = bind_args(nxt, skip, ln)
+                if b is not None:
+                    passed = set(p for p, x in b.items() if isinstance(x, ast.Name) and x.id in pn)
+                    if passed or skip == 0:
+                        break
+            if isinstance(ln.func, ast.Attribute) and isinstance(ln.func.value, ast.Name) and ln.func.value.id in pn and nxt.params():
+                passed.add(nxt.params()[0])          # ``<peripheral>.method(..)``: its ``self``
+            pn = passed
+        else:
+            pn = set()
+    return out
 
 
 _READ_ONLY_METHODS = {'get', 'keys', 'items', 'values', 'copy', 'index', 'count', 'startswith', 'endswith', 'lower', 'upper', 'strip', 'split', 'join',
